@@ -4,6 +4,10 @@
 #[derive(Clone, Debug)]
 pub struct Rng {
     s: [u64; 4],
+    /// choice tape: while not exhausted, `below(n)` returns tape[pos] % n (systematic
+    /// enumeration of short choice sequences); afterwards the PRNG takes over
+    tape: Vec<u32>,
+    tape_pos: usize,
 }
 
 fn splitmix(x: &mut u64) -> u64 {
@@ -21,7 +25,7 @@ impl Rng {
         for v in s.iter_mut() {
             *v = splitmix(&mut x);
         }
-        Rng { s }
+        Rng { s, tape: vec![], tape_pos: 0 }
     }
     pub fn for_case(seed: u64, prop: &str, idx: u64) -> Rng {
         let mut h: u64 = 0xcbf29ce484222325;
@@ -46,9 +50,19 @@ impl Rng {
         (self.next_u64() >> 32) as u32
     }
     /// uniform in 0..n (n>0)
+    pub fn with_tape(mut self, tape: Vec<u32>) -> Rng {
+        self.tape = tape;
+        self.tape_pos = 0;
+        self
+    }
     pub fn below(&mut self, n: usize) -> usize {
         if n == 0 {
             return 0;
+        }
+        if self.tape_pos < self.tape.len() {
+            let v = self.tape[self.tape_pos] as usize % n;
+            self.tape_pos += 1;
+            return v;
         }
         (self.next_u64() % n as u64) as usize
     }
